@@ -8,26 +8,21 @@ use std::rc::Rc;
 /// (symbolic string contents are measured out of reach; DESIGN.md section 0).
 pub const STRS: [&str; 3] = ["", "a", "b"];
 
-/// Number of value *kind classes* a harness enumerates concretely.
-pub const KINDS: usize = 4;
+/// Number of value *kinds* a harness enumerates concretely.
+pub const KINDS: usize = 5;
 
-/// A `Value` of CONCRETE kind class `k`:
-///   0 => Null or Int(any i32), chosen symbolically (neither owns heap memory)
-///   1.. => Str(STRS[k-1]) -- a concrete string.
-/// Kind classes are enumerated concretely by the harness: a symbolic choice
-/// between heap-owning and heap-free variants makes heap shapes symbolic,
-/// which CBMC cannot prune (measured: > 15 min for one operator).
+/// A `Value` of CONCRETE kind `k`: 0 Null, 1 Int(any i32), 2.. Str(STRS[k-2]).
+/// Kinds are enumerated concretely by the harness; only integer payloads are
+/// symbolic.  A symbolic kind (even just Null-or-Int) leaves the enum
+/// discriminant symbolic, and CBMC then also explores the string arms of the
+/// operator under test with garbage pointers (measured: `+` on a symbolic
+/// Null|Int pair runs out of memory after 320 s; concrete kinds take seconds).
 pub fn value_of_kind(k: usize) -> Value {
     match k {
-        0 => {
-            if kani::any() {
-                Value::Null
-            } else {
-                Value::Int(kani::any())
-            }
-        }
-        1 => Value::Str(String::from(STRS[0])),
-        2 => Value::Str(String::from(STRS[1])),
+        0 => Value::Null,
+        1 => Value::Int(kani::any()),
+        2 => Value::Str(String::from(STRS[0])),
+        3 => Value::Str(String::from(STRS[1])),
         _ => Value::Str(String::from(STRS[2])),
     }
 }
@@ -89,7 +84,186 @@ impl<const N: usize> std::io::Write for FixedSink<N> {
         }
         Ok(data.len())
     }
+    fn write_all(&mut self, data: &[u8]) -> std::io::Result<()> {
+        match self.write(data) {
+            Ok(_) => Ok(()),
+            Err(e) => Err(e),
+        }
+    }
     fn flush(&mut self) -> std::io::Result<()> {
         Ok(())
+    }
+}
+
+/// Stub for `format!`'s back end: error paths build their messages with
+/// `format!`; the text is never the subject, and real formatting explodes in
+/// CBMC.  Used with `#[kani::stub(std::fmt::format, crate::util::stub_format)]`.
+pub fn stub_format(_args: core::fmt::Arguments<'_>) -> String {
+    String::new()
+}
+
+/// Forget an `io::Result`'s error (its drop glue dispatches through a
+/// `dyn Error` vtable, which explodes symbolically) and report Ok/Err.
+pub fn is_ok_forget<T>(r: std::io::Result<T>) -> Option<T> {
+    match r {
+        Ok(v) => Some(v),
+        Err(e) => {
+            std::mem::forget(e);
+            None
+        }
+    }
+}
+
+// ---------------------------------------------------------------------------
+// C15: the medium as a nondeterministic stub with the contract of cfb::Stream
+// (cfb-0.10.0 src/internal/stream.rs): `write` only buffers (flushing first
+// when the buffer is full), `flush` pushes the buffer to the medium and may
+// fail, `Drop` flushes and DISCARDS the result.  Every call may fail
+// (symbolic fault schedule: transient and persistent faults are both covered
+// because each call draws its own nondeterministic bit).
+// ---------------------------------------------------------------------------
+
+pub struct Medium {
+    /// bytes the writer acknowledged with Ok(..)
+    pub accepted: usize,
+    /// bytes that durably reached the medium
+    pub committed: usize,
+    /// a deferred flush failed and its error was discarded
+    pub silent_loss: bool,
+    pub write_calls: usize,
+    pub flush_calls: usize,
+}
+
+impl Medium {
+    pub fn new() -> Medium {
+        Medium { accepted: 0, committed: 0, silent_loss: false, write_calls: 0, flush_calls: 0 }
+    }
+}
+
+pub const FB_CAP: usize = 6;
+
+pub struct FaultyBuffered<'a> {
+    pub medium: &'a mut Medium,
+    pub buffered: usize,
+}
+
+impl<'a> FaultyBuffered<'a> {
+    pub fn new(medium: &'a mut Medium) -> FaultyBuffered<'a> {
+        FaultyBuffered { medium, buffered: 0 }
+    }
+
+    fn push_buffer(&mut self) -> bool {
+        if self.buffered == 0 {
+            return true;
+        }
+        let fail: bool = kani::any();
+        if fail {
+            false
+        } else {
+            self.medium.committed += self.buffered;
+            self.buffered = 0;
+            true
+        }
+    }
+}
+
+impl<'a> std::io::Write for FaultyBuffered<'a> {
+    fn write(&mut self, data: &[u8]) -> std::io::Result<usize> {
+        self.medium.write_calls += 1;
+        if self.buffered + data.len() > FB_CAP {
+            if !self.push_buffer() {
+                return Err(std::io::Error::from(std::io::ErrorKind::Other));
+            }
+        }
+        let fail: bool = kani::any();
+        if fail {
+            return Err(std::io::Error::from(std::io::ErrorKind::Other));
+        }
+        self.buffered += data.len();
+        self.medium.accepted += data.len();
+        Ok(data.len())
+    }
+
+    // `write` always takes the whole slice, so the default `write_all` loop
+    // (which inspects the bit-packed io::Error for `Interrupted`, something
+    // CBMC cannot reason about cheaply) is replaced by the equivalent direct call.
+    fn write_all(&mut self, data: &[u8]) -> std::io::Result<()> {
+        match self.write(data) {
+            Ok(_) => Ok(()),
+            Err(e) => Err(e),
+        }
+    }
+
+    fn flush(&mut self) -> std::io::Result<()> {
+        self.medium.flush_calls += 1;
+        if self.push_buffer() {
+            Ok(())
+        } else {
+            Err(std::io::Error::from(std::io::ErrorKind::Other))
+        }
+    }
+}
+
+impl<'a> Drop for FaultyBuffered<'a> {
+    fn drop(&mut self) {
+        // like cfb::Stream: flush, ignore the result
+        if !self.push_buffer() {
+            self.medium.silent_loss = true;
+        }
+    }
+}
+
+/// Fixed-array reader that copies byte by byte (so CBMC keeps concrete bytes
+/// concrete and symbolic bytes individually symbolic; a `&[u8]` reader goes
+/// through memcpy, after which even the constant bytes of a partly symbolic
+/// buffer are no longer constant-propagated -- measured: 900 s vs seconds).
+pub struct ArrReader<const K: usize> {
+    pub buf: [u8; K],
+    pub len: usize,
+    pub pos: usize,
+}
+
+impl<const K: usize> ArrReader<K> {
+    pub fn new(buf: [u8; K], len: usize) -> Self {
+        ArrReader { buf, len, pos: 0 }
+    }
+    pub fn remaining(&self) -> usize {
+        self.len - self.pos
+    }
+}
+
+impl<const K: usize> std::io::Read for ArrReader<K> {
+    fn read(&mut self, out: &mut [u8]) -> std::io::Result<usize> {
+        let mut i = 0;
+        while i < out.len() && self.pos < self.len {
+            out[i] = self.buf[self.pos];
+            self.pos += 1;
+            i += 1;
+        }
+        Ok(i)
+    }
+    fn read_exact(&mut self, out: &mut [u8]) -> std::io::Result<()> {
+        if self.len - self.pos < out.len() {
+            self.pos = self.len;
+            return Err(std::io::Error::from(std::io::ErrorKind::UnexpectedEof));
+        }
+        let mut i = 0;
+        while i < out.len() {
+            out[i] = self.buf[self.pos];
+            self.pos += 1;
+            i += 1;
+        }
+        Ok(())
+    }
+}
+
+impl<const K: usize> std::io::Seek for ArrReader<K> {
+    fn seek(&mut self, from: std::io::SeekFrom) -> std::io::Result<u64> {
+        match from {
+            std::io::SeekFrom::Start(p) => self.pos = if (p as usize) < self.len { p as usize } else { self.len },
+            std::io::SeekFrom::End(_) => self.pos = self.len,
+            std::io::SeekFrom::Current(d) => self.pos = (self.pos as i64 + d) as usize,
+        }
+        Ok(self.pos as u64)
     }
 }
